@@ -275,6 +275,7 @@ class Conn(object):
         self.arrived = []                # every event that reached the server, in order
         self.fail_send_at = ()           # send indices at which the connection drops
         self.cancel_send_at = ()         # send indices at which the awaiting task is cancelled
+        self.fail_recv_at = ()           # receive() call indices that raise (connection reset)
         self.send_cancelled = False
         self.hold = False                # harness may hold back deliveries
         self.recv_after_disconnect = 0
@@ -288,6 +289,9 @@ class Conn(object):
         wake-up only; the event is taken from the queue when the caller
         actually resumes, so a cancelled receive() never loses an event."""
         self.recv_calls += 1
+        if (self.recv_calls - 1) in self.fail_recv_at:
+            self.sim.chooser.note_fired('recv_fail')
+            raise ConnectionResetError('connection reset while receiving')
         if self.waiter is not None and not self.waiter.done():
             self.sim.note('concurrent_receive')
         if self.sticky_disconnect is not None and not self.queue:
